@@ -193,6 +193,24 @@ SupplementSound ==
             IN /\ SuppAccept(acc, <<g, p.e>>) <=> ExactE(meta, np, p.e)
                /\ SuppAccept(acc, <<p.e, g>>) <=> ExactE(meta, np, p.e)
 
+\* The carrier.  The supplement travels with a block, and the block can take several forms: with v1
+\* transactions or without any, with V2 block data (from AllowHeight on; possibly holding v2
+\* transactions) or without.  Before RequireHeight the verdict on the supplement does not depend on
+\* the form: it is acceptable iff every supplied element -- in a per-transaction list where the form has
+\* v1 transactions, or among the expiring contracts -- is a member.  From RequireHeight on only the
+\* empty supplement is acceptable.  (Checked in the Full configurations, which also print the forms;
+\* the harness must build a carrier of every form and present its probes through each.)
+Forms == {"v1-txns-no-v2-data", "v1-no-txns", "v2-data-no-txns", "v2-data-one-v2-txn", "v2-data-v1-txns"}
+CarrierAccept(a, era, form, es) == IF era = "post-require" THEN es = <<>> ELSE SuppAccept(a, es)
+CarrierSound ==
+  Full =>
+    \A hs \in {HashesOf(meta)} :
+      \A np \in {[i \in 0..(acc.n - 1) |-> NaivePath(hs, i)]} :
+        /\ \A p \in Probes : \A form \in Forms :
+             /\ CarrierAccept(acc, "pre-require", form, <<p.e>>) <=> ExactE(meta, np, p.e)
+             /\ ~CarrierAccept(acc, "post-require", form, <<p.e>>)
+        /\ PrintT("@@CF " \o ToJson([forms |-> Forms, post |-> "empty-supplement-only"]))
+
 \* A v2 storage proof names the block that seeds its challenge by a chain index element (its
 \* ProofIndex, at the contract's proof height).  The resolution is acceptable only if that element is a
 \* member -- an ancestor of the applied history, not the index of a competing or reverted block, not an
